@@ -144,7 +144,7 @@ func hevcDeviations() []hdev {
 		})
 	}
 	vui("empty", func(v *h265syn.VUI, _ *S) {})
-	for _, idc := range []uint{0, 1, 16} {
+	for _, idc := range []uint{0, 1, 2, 3, 4, 5, 6, 7, 8, 9, 10, 11, 12, 13, 14, 15, 16} {
 		idc := idc
 		vui(fmt.Sprintf("aspect_ratio_idc=%d", idc), func(v *h265syn.VUI, _ *S) { v.AspectRatioPresent, v.AspectRatioIDC = true, idc })
 	}
